@@ -95,6 +95,7 @@ package endorse
 //@   requires ecOf(ctx) != nil && ecOf(ctx).VCS != nil && (cops == nil) == ecOf(ctx).DryRun
 //@   sweep[C15] nilinvoke nilcall
 //@   ensures[C15] ecOf(ctx).DryRun ==> copsCalls == old(copsCalls) && vcGetOps == old(vcGetOps)
+//@   ensures[C14] err == nil && !ecOf(ctx).DryRun && ecOf(ctx).SnapshotDir == "" ==> parsedWasLastRead
 
 //@ func commitEndorsement
 //@   modifies copsCalls, lastRead, lastReadErr, copsWrites, checkedMissing, marshalOf, parsedWasLastRead, pbsrc, pbok, vcGetOps, vcOpened, vcResults, copsDestroyed, copsCommitTries, copsCommitsOK, lastRetriable
